@@ -402,23 +402,30 @@ def laws_record(vc, rid, case):
 
 
 def normfit_moment_error(dist, par):
-    """mean / std of the measured pdf by quadrature in u = ln x (the pdf is the real object's)"""
+    """mean / std of the measured pdf by quadrature (the pdf is the real object's).  Integration
+    variable t = (ln x - mu) / sigma over [-12, 12] (mu, sigma of the documented formula only place
+    the window); central moments in expm1 form, so that a ratio sigma_norm / mu_norm of 1e-9 is
+    resolved."""
     from scipy.integrate import quad
+    from . import reference as R
 
     mn, sn = par["mu_norm"], par["sigma_norm"]
+    mu, sg = (float(v) for v in R.normfit_mu_sigma(R.M(mn), R.M(sn)))
     c = math.log(mn)
-    g = lambda u, k: float(dist.pdf(math.exp(u))) * math.exp(u) * math.exp(u - c) ** k
-    lims = dict(limit=400, epsabs=0, epsrel=1e-11)
-    span = 14.0 * math.sqrt(math.log(1 + (sn / mn) ** 2)) + 1.0
-    pts = [c - span / 2, c, c + span / 2]
-    m0 = quad(g, c - span, c + span, args=(0,), points=pts, **lims)[0]
-    m1 = quad(g, c - span, c + span, args=(1,), points=pts, **lims)[0]
-    m2 = quad(g, c - span, c + span, args=(2,), points=pts, **lims)[0]
-    mean = m1 * mn
-    var = m2 * mn * mn - mean * mean
+
+    def g(t, k):
+        u = mu + sg * t
+        x = math.exp(u)
+        return float(dist.pdf(x)) * x * sg * math.expm1(u - c) ** k
+
+    lims = dict(limit=400, epsabs=0, epsrel=1e-11, points=[-6, -3, -1, 0, 1, 3, 6])
+    m0 = quad(g, -12, 12, args=(0,), **lims)[0]
+    m1 = quad(lambda t: g(t, 1), -12, 12, **dict(lims, epsabs=1e-14 * max(sn / mn, 1e-30)))[0]   # (E X - mn) / mn
+    m2 = quad(g, -12, 12, args=(2,), **lims)[0]                              # E (X - mn)^2 / mn^2
+    var = m2 - m1 * m1
     if not (var > 0):
         return float("inf")
-    return max(abs(m0 - 1.0), abs(mean - mn) / mn, abs(math.sqrt(var) - sn) / sn)
+    return max(abs(m0 - 1.0), abs(m1), abs(math.sqrt(var) * mn - sn) / sn)
 
 
 def laws_key(c):
@@ -647,6 +654,8 @@ def run(ctx):
     # M
     ctx.model_check("ParamRouting", "MC_ParamRouting_override.cfg", must_cover=("NewDist", "CallExplicit"))
     ctx.model_check("ParamRouting", "MC_ParamRouting_override_mut.cfg", expect_violation="OverrideEqualsInstance")
+    ctx.model_check("ParamRouting", "MC_ParamRouting_override_mut_both.cfg",
+                    expect_violation="OverrideOutcomeAsSpecified")
     ctx.model_check("ParamRoutingHist", ctx.pick("MC_ParamRoutingHist_quick.cfg", "MC_ParamRoutingHist_thorough.cfg"),
                     must_cover=("New", "EvalKw", "Fit"))
     ctx.model_check("ParamRoutingHist", "MC_ParamRoutingHist_mut_index.cfg",
